@@ -49,6 +49,7 @@ REQUIRED = {
         'cli-et-checked-against-interval-average': 6,
         'cli-et-first-step-average-differs-by-5-percent': 3,
         'cli-tables-checked': 6,
+        'second-set-curvature-refused': 1,
         'cli-black-box-et-checked': 1,
     }
     for tier in ('quick', 'thorough')
@@ -267,6 +268,16 @@ def check_cli_case(ctx, rng, index):
     if exc is not None or status != 0:
         rec.violation('set-curvature-fails', {'exception': core.describe_exception(exc) if exc else status}, case, 'rec_cli')
         return
+    if index % 3 == 1:
+        # the user sets the curvature again with another value: refused (the first value stays
+        # in force) or accepted (the new value is the one to simulate with)
+        second = curvature + rng.choice([0.75, 1.5])
+        status, exc = data.cli(['set-curvature', db, repr(second)])
+        if exc is None and status == 0:
+            curvature = second
+            rec.hit('second-set-curvature-accepted')
+        else:
+            rec.hit('second-set-curvature-refused')
     connection = sqlite3.connect(db)
     view = connection.execute('SELECT zeta_mm, elapsed_time_s FROM average_recession_time ORDER BY zeta_mm').fetchall()
     et_own, et_first, nsteps = own_interval_et(connection)
@@ -322,6 +333,13 @@ def check_cli_case(ctx, rng, index):
                         f.write(buf.getvalue())
                     rec.hit('cli-output-on-stdout')
                 else:
+                    if index % 2 == 0:
+                        # the same output file name used again (as a PEST model run does): the file
+                        # must hold the output of the last run only
+                        data.cli(argv + ['-o', out])
+                        import gc
+                        gc.collect()
+                        rec.hit('cli-output-file-name-reused')
                     status, exc = data.cli(argv + ['-o', out])
                 if exc is not None or status != 0:
                     desc = core.describe_exception(exc) if exc else {'status': status}
